@@ -166,6 +166,15 @@ pub fn cmd_history(a: &[&str]) -> String {
                         ref_time_for_age(p[6].parse().unwrap()),
                         0,
                     );
+                    // optional 11th / 12th values: chrony's skew_ppm and last_offset fields (hex f64), which the published record must
+                    // not depend on
+                    let mut t = t;
+                    if let Some(x) = p.get(10) {
+                        t.skew_ppm = ChronyFloat::from(f64_of_hex(x));
+                    }
+                    if let Some(x) = p.get(11) {
+                        t.last_offset = ChronyFloat::from(f64_of_hex(x));
+                    }
                     set_clock(BASE_SECS as i128 * 1_000_000_000, 0);
                     up.clock_update(t, p[7].parse().unwrap(), libc::timespec { tv_sec: p[8].parse().unwrap(), tv_nsec: p[9].parse().unwrap() });
                     clock_off();
@@ -299,6 +308,10 @@ pub fn cmd_poller(a: &[&str]) -> String {
     let t = if some {
         let mut t0 = tracking(0.0, 0.0, 0.0, 1.0, 0, ref_time_for_age(1000), t_refid);
         t0.stratum = stratum;
+        // optional `leap=<n>`: the leap status of the report (default 0)
+        if let Some(l) = a.iter().skip(6).find_map(|x| x.strip_prefix("leap=")).and_then(|x| x.parse::<u16>().ok()) {
+            t0.leap_status = l;
+        }
         Some(t0)
     } else {
         None
@@ -328,6 +341,39 @@ pub fn cmd_poller(a: &[&str]) -> String {
     match res {
         Ok(()) => format!("ok n={} msgs={} clock_ids={} clock_reads_before_query={}", msgs.len(), msgs.join("|"), cr.join(","), rb.join(",")),
         Err(p) => format!("panic {} msgs={}", crate::panic_msg(&p), msgs.join("|")),
+    }
+}
+
+/// pollertiming <period_ms> <total_ms>: the REAL poller loop with the given polling period against a chronyd that never answers (and
+/// was never heard: outside the grace period); after <total_ms> it is told to stop.  Prints how many outcome messages reached the
+/// writer's mailbox: the grace period is only evaluated at a poll, so the polls must keep their period during an outage.
+pub fn cmd_pollertiming(a: &[&str]) -> String {
+    use clock_bound_d::channels::new_channel_web;
+    use clock_bound_d::thread_manager::Context;
+    use clock_bound_d::{ChannelId, Message};
+    let period: u64 = a.get(0).and_then(|x| x.parse().ok()).unwrap_or(40);
+    let total: u64 = a.get(1).and_then(|x| x.parse().ok()).unwrap_or(600);
+    let (mut mbox, dbox) = new_channel_web(vec![ChannelId::ClockErrorBoundPoller, ChannelId::ShmWriter]);
+    let shm_mailbox = mbox.get_mailbox(&ChannelId::ShmWriter).unwrap();
+    let my = mbox.get_mailbox(&ChannelId::ClockErrorBoundPoller).unwrap();
+    let stopper = dbox.clone();
+    let ctx = Context { mbox: my, dbox, channel_id: ChannelId::ClockErrorBoundPoller };
+    let h = std::thread::spawn(move || {
+        std::thread::sleep(Duration::from_millis(total));
+        let _ = stopper.send(&ChannelId::ClockErrorBoundPoller, Message::ThreadAbort);
+    });
+    let ops = MockOps { tracking: None, grace: false, grace_before: false, queried: std::cell::Cell::new(false), reads_before_query: Rc::new(RefCell::new(Vec::new())), second_phc: None, second_silent: false, queries: 0 };
+    let t0 = std::time::Instant::now();
+    let res = std::panic::catch_unwind(std::panic::AssertUnwindSafe(|| vp::run_poller(ctx, ops, None, Duration::from_millis(period))));
+    let ran_ms = t0.elapsed().as_millis();
+    let _ = h.join();
+    let mut n = 0;
+    while let Ok(_m) = shm_mailbox.try_recv() {
+        n += 1;
+    }
+    match res {
+        Ok(()) => format!("ok messages={} ran_ms={} period_ms={} total_ms={}", n, ran_ms, period, total),
+        Err(p) => format!("panic {}", crate::panic_msg(&p).replace(' ', "_")),
     }
 }
 
